@@ -181,6 +181,11 @@ class DropletTrack:
                     "multiple droplet classes: " + ", ".join(c.__name__ for c in classes)
                 )
             d0 = self.first
+            if any(d.data.dtype != d0.data.dtype for d in self.droplets):
+                raise TypeError(
+                    "DropletTrack data cannot be stored contiguously if droplets have "
+                    "different data layouts"
+                )
             dtype = [("time", "f8")] + d0.data.dtype.descr
             result = np.empty(len(self), dtype=dtype)
             for i in range(len(self)):
